@@ -2138,8 +2138,8 @@ class VM:
             arr._elements = parts
             return arr
 
-        def expand(template, matched, index):
-            """GetSubstitution for a string pattern (no captures): $$ $& $` $'."""
+        def expand(template, matched, index, captures=()):
+            """GetSubstitution: $$ $& $` $' and, for the groups of a regex, $n / $nn."""
             if "$" not in template:
                 return template
             out = []
@@ -2154,6 +2154,22 @@ class VM:
                     out.append(s[:index])
                 elif pair == "$'":
                     out.append(s[index + len(matched) :])
+                elif pair[0] == "$" and pair[1:] in tuple("0123456789"):
+                    # two digits when there is such a group ($10 with nine
+                    # groups or fewer is $1 followed by "0"), else one; a
+                    # reference to no group ($0, $3 with two groups) stays text
+                    width = 1
+                    if template[i + 2 : i + 3] in tuple("0123456789"):
+                        if int(template[i + 1 : i + 3]) <= len(captures):
+                            width = 2
+                    group = int(template[i + 1 : i + 1 + width])
+                    if 1 <= group <= len(captures):
+                        out.append(captures[group - 1] or "")  # unmatched: empty
+                        i += 1 + width
+                    else:
+                        out.append("$")
+                        i += 1
+                    continue
                 else:
                     out.append(template[i])
                     i += 1
@@ -2213,22 +2229,13 @@ class VM:
                     is_global = "g" in pattern._flags
                     capture_count = regex_internal._capture_count
 
-                    # Handle special replacement patterns
+                    # Expand the replacement template for one match
+                    # (capture_count includes group 0)
                     def handle_replacement(match_result):
-                        result = replacement
-                        # Handle $$ escape first (must be done before other $ patterns)
-                        result = result.replace("$$", "\x00DOLLAR\x00")
-                        # $& - the matched substring
-                        result = result.replace("$&", match_result[0] or "")
-                        # $n - nth captured group
-                        for i in range(1, 10):
-                            if i <= capture_count:
-                                result = result.replace(f"${i}", match_result[i] or "")
-                            else:
-                                result = result.replace(f"${i}", "")
-                        # Restore escaped dollars
-                        result = result.replace("\x00DOLLAR\x00", "$")
-                        return result
+                        captures = [match_result[i] for i in range(1, capture_count)]
+                        return expand(
+                            replacement, match_result[0], match_result.index, captures
+                        )
 
                     # Symbol.replace: collect the matches through
                     # RegExpBuiltinExec (it honours sticky and lastIndex; a
